@@ -2,6 +2,7 @@ package main
 
 import (
 	"encoding/json"
+
 	"fmt"
 	"io/fs"
 	"os"
@@ -10,6 +11,8 @@ import (
 	"regexp"
 	"sort"
 	"strings"
+
+	"golang.org/x/tools/go/ssa"
 )
 
 // Thorough tier = the quick rules on /repo's working tree (that alone decides
@@ -346,4 +349,89 @@ func firstLine(s string) string {
 		return s[:i]
 	}
 	return s
+}
+
+func init() {
+	// C06 thorough: the compiler's own bounds-check-elimination report as a
+	// completeness cross-reference of the index/slice site enumeration: every
+	// bounds check the compiler could not prove away, in a Parse-reachable
+	// function, must be one of the sites the rule enumerated (at that line, or at
+	// the call of an inlined function that contains such a site).
+	thoroughProps["C06"] = func(P *Prog, r *Result, repo string) {
+		cmd := exec.Command("go", "build", "-gcflags="+modPath+"/...=-d=ssa/check_bce/debug=1", "./...")
+		cmd.Dir = repo
+		cmd.Env = append(os.Environ(), "GOFLAGS=-mod=mod", "GOPROXY=off", "GOSUMDB=off", "GOTOOLCHAIN=local", "GOWORK=off")
+		out, _ := cmd.CombinedOutput()
+		g := P.buildModCG()
+		S := P.parseSet(g)
+		// lines of enumerated index/slice sites, and lines of calls to functions containing such sites
+		siteLines := map[string]bool{}
+		hasSites := map[string]bool{}
+		for _, fn := range P.Funcs {
+			for _, s := range P.panicSites(fn) {
+				if s.kind == "index" || s.kind == "slice" {
+					siteLines[P.ipos(s.in)] = true
+					hasSites[fname(fn)] = true
+				}
+			}
+		}
+		callLines := map[string]bool{}
+		funcLines := map[string][2]int{}
+		for _, fn := range P.Funcs {
+			eachInstr(fn, func(_ *ssa.BasicBlock, _ int, in ssa.Instruction) {
+				if ci := callOf(in); ci != nil && ci.static != nil && (hasSites[fname(ci.static)] || !inModule(funcPkgPath(ci.static))) {
+					// inlined callee: a module function with enumerated sites, or standard-library code (trusted)
+					callLines[P.ipos(in)] = true
+				}
+			})
+			_ = funcLines
+		}
+		inParse := func(file string, line int) bool {
+			for fn := range S {
+				if fn.Syntax() == nil {
+					continue
+				}
+				ps, pe := P.Fset.Position(fn.Syntax().Pos()), P.Fset.Position(fn.Syntax().End())
+				f := strings.TrimPrefix(ps.Filename, P.Repo+"/")
+				if f == file && line >= ps.Line && line <= pe.Line {
+					return true
+				}
+			}
+			return false
+		}
+		re := regexp.MustCompile(`^(?:\./)?([^:\s]+\.go):(\d+):\d+: Found (IsInBounds|IsSliceInBounds)`)
+		total, matched := 0, 0
+		var unmatched []string
+		seen := map[string]bool{}
+		for _, line := range strings.Split(string(out), "\n") {
+			m := re.FindStringSubmatch(strings.TrimSpace(line))
+			if m == nil || strings.HasSuffix(m[1], "_test.go") {
+				continue
+			}
+			key := m[1] + ":" + m[2]
+			if seen[key] {
+				continue
+			}
+			seen[key] = true
+			var ln int
+			fmt.Sscanf(m[2], "%d", &ln)
+			if !inParse(m[1], ln) {
+				continue
+			}
+			total++
+			if siteLines[key] || callLines[key] {
+				matched++
+			} else {
+				unmatched = append(unmatched, key+" "+m[3])
+			}
+		}
+		sort.Strings(unmatched)
+		r.Extra["bce_unproven_checks_in_parse_code"] = total
+		r.Extra["bce_matched_to_enumerated_sites"] = matched
+		r.Extra["bce_unmatched"] = unmatched
+		fmt.Printf("selftest C06: compiler BCE cross-reference: %d unproven bounds checks in Parse-reachable code, %d matched to enumerated sites\n", total, matched)
+		for _, u := range unmatched {
+			fmt.Printf("selftest C06: BCE site not enumerated by the rule: %s (measurement only)\n", u)
+		}
+	}
 }
